@@ -383,22 +383,23 @@ Fixpoint join_groups (prev_trail : list com) (mark : bool) (gs : list group) : l
 (* ---------------------------------------------------------------- norm *)
 Definition restyle_item (c : fmt_config) (it : item) : item := (map (restyle c) (fst it), snd it).
 
-(* comments after the last token: those on its line trail the last declaration, the formatter
-   prints no others - and none at all when the file has no token *)
+(* comments after the last token: those on its line trail the last declaration (and move with it
+   when the declarations are sorted), the others are printed behind the last declaration on lines
+   of their own - all of them when the file has no token *)
 Definition keep_tail (out : list item) (tail1 : list com) : list com * list com :=
   match out with [] => ([], tail1) | _ :: _ => split_lf0 tail1 end.
 
 Definition norm_items (c : fmt_config) (its : list item) (tail : list com) : list item * list com :=
   let (out, tl1) := run c st0 [] (map (restyle_item c) its) in
   let tail1 := tl1 ++ map (restyle c) tail in
-  let (tr, _) := keep_tail out tail1 in
-  let (gs, rest) := chunks 0 [] out in
-  match rest with
-  | _ :: _ => (out, tr)                           (* unfinished declaration: nothing is sorted *)
+  let (tr, rest) := keep_tail out tail1 in
+  let (gs, rem) := chunks 0 [] out in
+  match rem with
+  | _ :: _ => (out, tr ++ rest)                   (* unfinished declaration: nothing is sorted *)
   | [] =>
       if sort_declaration c
-      then join_groups [] true (sort_groups (detach gs tr))
-      else (out, tr)
+      then let (o, t) := join_groups [] true (sort_groups (detach gs tr)) in (o, t ++ rest)
+      else (out, tr ++ rest)
   end.
 
 Definition norm (c : fmt_config) (ts : list elt) : list elt :=
